@@ -32,7 +32,7 @@ class C02(core.Check):
                    'fix whether it takes the address before or after the directive)',
                    'layout-affecting expressions use literals only; negative fill counts are not generated')
     chunk = 600
-    required_buckets = {b: 3 for b in ['predefined-data-block-and-no-origin-in-front', 'labels-that-differ-in-the-scope-prefix-only', 'ref:forward', 'ref:backward', 'ref:in-expression', 'ref:byte-extraction',
+    required_buckets = {b: 3 for b in ['predefined-data-block-and-no-origin-in-front', 'labels-that-differ-in-the-scope-prefix-only', 'configured-origin-inside-a-named-zone', 'ref:forward', 'ref:backward', 'ref:in-expression', 'ref:byte-extraction',
                                        'ref:difference', 'org:forward', 'org:backwards', 'org:zone-relative', 'zone-switch',
                                        'align:from-aligned', 'align:from-unaligned', 'align:default-page',
                                        'align:explicit-page', 'align:non-power-of-2', 'muted-line', 'excluded-line',
@@ -112,6 +112,7 @@ class C02(core.Check):
     def cases(self, tier, seed):
         yield from self.predefined_data_cases()
         yield from self.prefix_twin_cases()
+        yield from self.origin_inside_zone_cases()
         n_pre = 200
         n = 300 if tier == 'quick' else 8000
         for i in range(n_pre + n):
@@ -272,6 +273,41 @@ class C02(core.Check):
                                      'probes': ['steps', 'sizes', 'cursor'], 'step_limit': 3_000_000}],
                            'meta': {'lines': {}, 'image': layout.image(res.M, 0, None, 0).hex(), 'labels': lab},
                            'tags': sorted({'predefined-data-block-and-no-origin-in-front', 'first-line:' + lead, 'ref:forward', 'ref:backward'})}
+
+    def origin_inside_zone_cases(self):
+        """a configured origin that lies inside a predefined named zone is where GLOBAL starts, nothing else: the zone's own lines
+        start at the zone's first address"""
+        for zs, ze, origin in ((0x100, 0x1FF, 0x140), (0x100, 0x1FF, 0x1FF), (0x40, 0x5F, 0x41), (0x100, 0x1FF, 0x100), (0x100, 0x1FF, 0x80)):
+            for first in ('global', 'zone'):
+                zones = [{'name': 'ZN', 'start': zs, 'end': ze}]
+                isa = gen_prog.layout_isa(16, origin=origin, zones=zones)
+                g_part = [{'k': 'label', 'name': 'g_lbl'}, {'k': 'data', 'width': 1, 'vals': [1]}]
+                z_part = [{'k': 'memzone', 'name': 'ZN'}, {'k': 'label', 'name': 'z_lbl'}, {'k': 'data', 'width': 1, 'vals': [2, 3]},
+                          {'k': 'ref2', 'names': ['z_lbl', 'g_lbl', 'after_l']}, {'k': 'memzone', 'name': 'GLOBAL'}]
+                stream = (g_part + z_part if first == 'global' else z_part + g_part) + [{'k': 'label', 'name': 'after_l'}, {'k': 'data', 'width': 1, 'vals': [4]}]
+                for l in stream:
+                    if l['k'] == 'ref2':
+                        l.update(k='data', width=2, vals=[0] * len(l['names']))
+                res = layout.layout(stream, 16, origin=origin, predefined_zones=zones, size_of=lambda l, a: l['width'] * len(l['vals']))
+                if res.kind != 'ACCEPT' or layout.overlaps(res)[0] != 'ACCEPT':
+                    continue
+                lab = {l['name']: l['addr'] for l in stream if l['k'] == 'label'}
+                for l in stream:
+                    if 'names' in l:
+                        l['vals'] = [lab[n] for n in l['names']]
+                layout.memory_map(res, lambda l: layout.data_bytes(l['width'], l['vals'], 'big'))
+
+                def text(l):
+                    if 'names' in l:
+                        return '.2byte ' + ', '.join(l['names'])
+                    if l['k'] == 'data':
+                        return '.byte ' + ', '.join(str(v) for v in l['vals'])
+                    return gen_prog.render_line(l, None)
+                fn, itext = isamod.render_isa(isa, 'json')
+                yield {'runs': [{'files': {fn: itext, 'p.asm': '\n'.join(text(l) for l in stream) + '\n'}, 'argv': ['compile', '-c', fn, 'p.asm', '-o', 'out.bin'],
+                                 'probes': ['steps', 'sizes', 'cursor'], 'step_limit': 3_000_000}],
+                       'meta': {'lines': {}, 'image': layout.image(res.M, 0, None, 0).hex(), 'labels': lab},
+                       'tags': sorted({'configured-origin-inside-a-named-zone' if zs < origin <= ze else 'configured-origin-and-a-named-zone', 'ref:forward', 'ref:backward'})}
 
     def prefix_twin_cases(self):
         """labels whose names differ in the scope prefix only (x, _x, .x) are three labels with three addresses, whichever of
